@@ -666,10 +666,49 @@ fn pattern(kind: u64, len: usize, rng: &mut Prng) -> Vec<u8> {
         3 => (0..len).map(|i| if i % 2 == 0 { 0xff } else { 0x00 }).collect(),
         4 => (0..len).map(|i| (i as u8).wrapping_add(1)).collect(),
         5 => (0..len).map(|i| 0xffu8.wrapping_sub(i as u8)).collect(),
+        // carry stress: every 4 (7) / 8 (8) octet word is all ones or a small number (in either
+        // byte order). Sums of such words sit right at the multiples of 2^32 / 2^64, where an
+        // accumulator that folds its carries late, once, or into a narrower type loses one.
+        7 | 8 => carry_stress(if kind == 7 { 4 } else { 8 }, len, rng),
         _ => rng.bytes(len),
     }
 }
-const PATTERNS: u64 = 7;
+const PATTERNS: u64 = 9;
+
+pub fn carry_stress(word: usize, len: usize, rng: &mut Prng) -> Vec<u8> {
+    let mut v = vec![0xffu8; len];
+    let words = len / word;
+    let lead = if rng.bool() { 0 } else { rng.usize_below(word) };
+    let mut ones_run = 0usize;
+    for w in 0..words {
+        let at = lead + w * word;
+        if at + word > len {
+            break;
+        }
+        if rng.chance(2, 5) {
+            // a small number: near the count of all-ones words seen so far, or 0..3
+            let n = match rng.below(3) {
+                0 => ones_run as u64,
+                1 => (ones_run as u64).saturating_sub(1),
+                _ => rng.below(4),
+            };
+            let b = n.to_le_bytes();
+            for i in 0..word {
+                v[at + i] = 0;
+            }
+            if rng.bool() {
+                v[at..at + word.min(8)].copy_from_slice(&b[..word.min(8)]);
+            } else {
+                for i in 0..word.min(8) {
+                    v[at + word - 1 - i] = b[i];
+                }
+            }
+        } else {
+            ones_run += 1;
+        }
+    }
+    v
+}
 
 /// places `data` at offset `align` (0..7) of an 8-aligned buffer; returns (buffer, start)
 fn place(data: &[u8], align: usize) -> (Vec<u64>, usize) {
@@ -950,6 +989,16 @@ impl TcpSpec {
         v
     }
     fn to_ep(&self, stored_checksum: u16) -> TcpHeader {
+        let mut h = self.to_ep_fresh(stored_checksum);
+        if self.seq & 1 == 1 {
+            // a reused header: it carried a full, non-zero option area before it got these options
+            // (what is no longer part of the header is no longer part of any checksum)
+            let _ = h.set_options_raw(&[0xa7u8; 40]);
+            let _ = h.set_options_raw(&self.opts);
+        }
+        h
+    }
+    fn to_ep_fresh(&self, stored_checksum: u16) -> TcpHeader {
         let f = self.flags;
         TcpHeader {
             source_port: self.sp,
@@ -2747,7 +2796,7 @@ impl Monitor for C09 {
     fn engines(&self, tier: Tier) -> Vec<(&'static str, u64)> {
         vec![
             ("fold", FOLD_CASES),
-            // (length 0..=70) x (alignment 0..7) x (7 contents) [x repetitions with other random parts]
+            // (length 0..=70) x (alignment 0..7) x (9 contents) [x repetitions with other random parts]
             ("helper_exh", EXH_LENS * EXH_ALIGNS * PATTERNS * tier.pick(2, 12)),
             ("helper_rand", tier.pick(200_000, 12_000_000)),
             ("ipv4", tier.pick(1_200_000, 72_000_000)),
@@ -2826,6 +2875,7 @@ impl C09 {
                         }
                         v
                     }
+                    3 => carry_stress(if rng.bool() { 4 } else { 8 }, len, rng),
                     _ => rng.bytes(len),
                 };
                 if len >= 2 && rng.chance(1, 16) {
